@@ -942,6 +942,20 @@ func checkUnrollFresh(p *Program, r *Report, at *arrayType, tname string, rule s
 			bad = "returns a value that is neither storage nor a slice built in this call: " + o.String()
 		}
 	}
+	// a gathered copy may be returned only for non-contiguous views (Go back-end: contiguous views must alias)
+	if !at.cBack {
+		for _, ret := range returnsOf(un) {
+			gather := false
+			for _, o := range origins(ret.Results[0]) {
+				if _, ok := o.(*ssa.MakeSlice); ok {
+					gather = true
+				}
+			}
+			if gather && !contiguousGuard(ret.Block(), un.Params[0], false) {
+				bad = "can return a gathered copy on a path where the view may be contiguous (only Contiguous()==false justifies a copy): writes through the unrolled slice of a contiguous view are lost"
+			}
+		}
+	}
 	// the struct holds no element data besides Impl
 	st := at.named.Underlying().(*types.Struct)
 	for i := 0; i < st.NumFields(); i++ {
